@@ -104,12 +104,12 @@ class Disconnection:
 
   def _disconnect_dependent_lines(self):
     for k in self.__class__.DEPENDENT_LINES:
-      for ref in self._refs.get(k, []):
+      for ref in list(self._refs.get(k, [])):
         self._disconnect_dependent_line(ref)
 
   def _remove_nonfield_backreferences(self):
     for k in self.__class__.OTHER_REFERENCES:
-      for ref in self._refs.get(k, []):
+      for ref in list(self._refs.get(k, [])):
         self._remove_backreference(ref, k)
 
   def _remove_nonfield_references(self):
